@@ -147,7 +147,7 @@ def real_tuples(doc):
             mk = sorted(c for c in e["cls"] if "marked" in c)
             out.append(("line", u[0], u[1], u[2], u[3], br, ",".join(mk)))
         elif e["k"] == "rect":
-            out.append(("rect", u[0], u[1], u[2], u[3], u[4], br))
+            out.append(("rect", u[0], u[1], u[2], u[3], u[4], br, 1 if "filled" in e["cls"] else 0))
         elif e["k"] == "path":
             out.append(("path", u[0], u[1], u[2], e["fl"][2] if len(e["fl"]) == 3 else -1, u[4], u[5],
                         e["fl"][1] if len(e["fl"]) == 3 else -1))
